@@ -69,13 +69,15 @@ def unit_templates():
 
 def template_directives(path):
     """extra per-unit settings: //@@ key value lines (verus-args, aux patterns, function->props map)"""
-    d = {'verus_args': [], 'aux': [], 'fnprops': {}}
+    d = {'verus_args': [], 'aux': [], 'fnprops': {}, 'depends': []}
     for line in open(path):
         s = line.strip()
         if s.startswith('//@@'):
             k, _, v = s[4:].strip().partition(' ')
             if k == 'verus-args':
                 d['verus_args'] += v.split()
+            elif k == 'depends':
+                d['depends'] += v.split()
             elif k == 'aux':
                 d['aux'].append(v.strip())
             elif k == 'fnprops':
@@ -286,7 +288,16 @@ def main():
     tier = a.tier if a.tier in ('quick', 'thorough') else 'quick'
     seed = int(os.environ.get('VERIF_SEED', '0') or 0)
     t0 = time.time()
-    units = {u: i for u, i in unit_templates().items() if prop in i['allprops']}
+    all_units = unit_templates()
+    units = {u: i for u, i in all_units.items() if prop in i['allprops']}
+    # units whose contracts are imported (assumed) by the property's units are run as dependencies
+    todo = list(units)
+    while todo:
+        u = todo.pop()
+        for dname in template_directives(all_units[u]['path'])['depends']:
+            if dname in all_units and dname not in units:
+                units[dname] = dict(all_units[dname], dependency_of=u)
+                todo.append(dname)
     if a.units:
         units = {u: i for u, i in units.items() if u in a.units.split(',')}
     if not units:
@@ -340,6 +351,7 @@ def run_unit_with_retries(u, info, repo, wd, tier, seed):
             r['undecided'].append('rlimit exceeded after retry ladder in: ' + ', '.join(sorted({f['function'] for f in r['failures']})))
             r['failures'] = []
     r['attempts'] = len(attempts)
+    r['dependency_of'] = info.get('dependency_of')
     if tier == 'thorough' and not r['failures'] and not r['undecided']:
         # proof-stability: re-prove under 3 further seeds; record, never alarm
         stab = []
@@ -359,6 +371,9 @@ def report(prop, tier, seed, results, extra, wall):
             undecided.append('%s: %s' % (r['unit'], u))
         for f in r['failures']:
             if prop not in f['props']:
+                if r.get('dependency_of') and not f['aux'] and f['kind'] != 'rlimit':
+                    undecided.append('%s: imported contract not discharged in dependency unit (%s, needed by %s)'
+                                     % (r['unit'], obligation_id(f), r['dependency_of']))
                 continue
             if f['kind'] == 'rlimit':
                 undecided.append('%s: rlimit in %s' % (r['unit'], f['function']))
